@@ -5,8 +5,10 @@ package main
 //	(6)  every byte value 0..255 inside a word, a quoted argument and a heredoc body, alone and at
 //	     the edges ("unchanged byte-for-byte (including non-ASCII bytes)");
 //	(7)  heredoc bodies that look like their marker: lines that are proper prefixes of the marker,
-//	     the marker in another case, the marker after a blank, empty lines - random over a pool of
-//	     10 markers and exhaustive over {NL,a,b,SP} for the marker "ab";
+//	     the marker in another case, the marker after a blank, empty lines, lines that only BEGIN
+//	     with the marker (text since the repair F40), the empty heredoc, the marker followed by a
+//	     blank / a tab / a newline / the end of the input - random over a pool of 10 markers and
+//	     exhaustive over {NL,a,b,SP} for the marker "ab";
 //	(8)  everything that can follow "k=<<" over a token alphabet (marker letters, blanks, newline,
 //	     quote, backslash, terminator), exhaustive to 4/5 tokens: the heredoc part of the machine is
 //	     out of reach of the byte-exhaustive generator (its shortest complete heredoc has 9 bytes);
@@ -121,14 +123,22 @@ func c17ExpectInject(args []string) (sets [][3]string, sep []string) {
 
 func c17TrimBlanks(s string) string { return strings.Trim(s, " \t") }
 
-// heredocBodyOK: the first place where the terminator NL+marker matches is the very end of
-// body+NL+marker, and the body's first line does not itself begin with the marker (what such a
-// line means is left to the correspondence with the model).
+// c17TermLine: a heredoc's terminator line (repair F40) - the marker followed by nothing, a blank
+// or a tab. A line that merely begins with the marker (EOFX) is text.
+func c17TermLine(line, m string) bool {
+	return line == m || strings.HasPrefix(line, m+" ") || strings.HasPrefix(line, m+"\t")
+}
+
+// heredocBodyOK: no line of the text - the first one included - is a terminator line, so the
+// text written between "k=<<m NL" and "NL m" (followed by a blank, a newline or the end of the
+// input) must come back whole, trimmed of surrounding blanks.
 func c17HeredocBodyOK(body, m string) bool {
-	if strings.Contains(body+"\n"+m[:len(m)-1], "\n"+m) {
-		return false
+	for _, l := range strings.Split(body, "\n") {
+		if c17TermLine(l, m) {
+			return false
+		}
 	}
-	return !strings.HasPrefix(body, m)
+	return true
 }
 
 func c17Audit(o *Out, rng *RNG, tier string, h c17Hooks) {
@@ -176,7 +186,15 @@ func c17Audit(o *Out, rng *RNG, tier string, h c17Hooks) {
 		var lines []string
 		for k := rng.Intn(5); k > 0; k-- {
 			var l string
-			switch rng.Intn(9) {
+			switch rng.Intn(13) {
+			case 9:
+				l = m + []string{"X", "_", "s", "1", "=", "\"", "\\", "\xc3\xa9", "\r"}[rng.Intn(9)] // only BEGINS with the marker: text
+			case 10:
+				l = m + m
+			case 11:
+				l = m + []string{" ", "\t", " x", "\ty"}[rng.Intn(4)] // a terminator line: the rest is L1 only
+			case 12:
+				l = m // the marker line itself inside the text: L1 only
 			case 0, 1:
 				l = m[:rng.Intn(len(m))] // proper prefix of the marker (or empty)
 			case 2:
@@ -200,17 +218,25 @@ func c17Audit(o *Out, rng *RNG, tier string, h c17Hooks) {
 		}
 		key := []string{"k", "key.name", "-k", "", "a=b"}[rng.Intn(5)]
 		src := key + "=<<" + m + "\n" + body + "\n" + m
+		if len(lines) == 0 && rng.Bool() {
+			src = key + "=<<" + m + "\n" + m // the EMPTY heredoc: the marker line directly behind the opening one
+			o.Stat("heredoc_empty")
+		}
 		if !c17HeredocBodyOK(body, m) {
 			h.addRead([]byte(src + "\nnext\n")) // L1 only
 			o.Stat("heredoc_lookalike_l1")
 			continue
 		}
 		arg := key + "=" + c17TrimBlanks(body)
-		if rng.Bool() {
+		switch rng.Intn(3) {
+		case 0:
 			h.checkTokens([]byte("c "+src+" t\nnext\n"), [][]string{{"c", arg, "t"}, {"next"}}, "", false, false)
-		} else {
+		case 1:
+			h.checkTokens([]byte("c "+src+"\tt\nnext\n"), [][]string{{"c", arg, "t"}, {"next"}}, "", false, false)
+		default:
 			h.checkTokens([]byte(src+"\nnext one\n"), [][]string{{arg}, {"next", "one"}}, "", false, false)
 		}
+		h.addRead([]byte("c " + src)) // the input ends right behind the marker: the command is complete (L1)
 		o.Stat("heredoc_lookalike")
 	}
 	exhMarkers := []string{"ab"}
@@ -275,7 +301,9 @@ func c17Audit(o *Out, rng *RNG, tier string, h c17Hooks) {
 		}
 		return string(b)
 	}
+	lastHeredoc := false // behind a heredoc's marker only a blank, a newline or the end of the input ends it
 	genToken := func() (src, arg string) {
+		lastHeredoc = false
 		switch k := rng.Intn(10); {
 		case k < 5:
 			w := genWord()
@@ -284,7 +312,11 @@ func c17Audit(o *Out, rng *RNG, tier string, h c17Hooks) {
 			a := genAny(9)
 			return refQuote1(a), a
 		default:
+			lastHeredoc = true
 			m := markers[rng.Intn(len(markers))]
+			if rng.Chance(10) {
+				return "k=<<" + m + "\n" + m, "k=" // the empty heredoc
+			}
 			for {
 				body := genAny(9)
 				if c17HeredocBodyOK(body, m) {
@@ -299,10 +331,15 @@ func c17Audit(o *Out, rng *RNG, tier string, h c17Hooks) {
 	genCommand := func(maxTok int) (src string, args []string) {
 		var sb strings.Builder
 		sb.WriteString(leads[rng.Intn(len(leads))])
+		lastHeredoc = false
 		for t, n := 0, rng.Intn(maxTok+1); t < n; t++ {
 			if t > 0 {
 				if rng.Chance(50) {
-					sb.WriteString(seps[rng.Intn(len(seps))])
+					sep := seps[rng.Intn(len(seps))]
+					if lastHeredoc && sep[0] == '\\' {
+						sep = " " + sep // a backslash right behind the marker would be text
+					}
+					sb.WriteString(sep)
 				} else {
 					sb.WriteByte(' ')
 				}
@@ -336,7 +373,11 @@ func c17Audit(o *Out, rng *RNG, tier string, h c17Hooks) {
 	notCont := []string{" \\ ", " \\\t", "\\ ", "\\ \t ", " \\\\", "\\\\", " \\\\ ", "a\\\\", " \\\n\\ "}
 	for i, n := 0, pick(200, 6000); i < n; i++ {
 		src, args := genCommand(3)
-		src += notCont[rng.Intn(len(notCont))]
+		nc := notCont[rng.Intn(len(notCont))]
+		if lastHeredoc && nc[0] != ' ' {
+			nc = " " + nc // right behind a heredoc's marker the backslash (or letter) would be text
+		}
+		src += nc
 		var input bytes.Buffer
 		input.WriteString(src + "\n")
 		expected := [][]string{args}
